@@ -210,6 +210,10 @@ def special_cases(ctx):
         ("-x -L 2: the second line does not fit -s", ["-x", "-L", "2", "-s", str(len(common.REC) + 1 + 6)], None, b"ab\ncd efg\nz\n", 1, 0),
         ("-x --max-lines=1: a later argument does not fit -s", ["-x", "--max-lines=1", "-s", str(len(common.REC) + 1 + 6)], None, b"ab cd efg\n", 1, 0),
         ("-x -n 3: the third argument does not fit -s", ["-x", "-n", "3", "-s", str(len(common.REC) + 1 + 6)], None, b"ab cd efg zz\n", 1, 0),
+        # (round 9) -L given after -I decides the mode (line mode, whatever N is): quotes are processed, an unterminated one is an input error
+        ("-I R then -L 1: unterminated quote", ["-I", "R", "-L", "1"], None, b"a 'b c\n", 1, None),
+        ("-I R then --max-lines=1: unterminated quote", ["-I", "R", "--max-lines=1"], None, b'ok\n"never closed\n', 1, None),
+        ("-I R then -L 01 -n1: unterminated quote", ["-I", "R", "-L", "01", "-n1"], None, b"x 'y\n", 1, None),
         ("argument too long for -s after ok ones", ["-s", str(len(common.REC) + 1 + 6)], None, b"ab\ncd\nabcdefghijklmnop\nzz\n", 1, None),
     ]
     for name, opts, cmd, data, want, want_n in cases:
